@@ -178,6 +178,28 @@ def build():
                 return f
             R.add(f"Future.add[other={'Future' if b_future else 'int'}{', mod' if mod else ''}]", kind="lia", samples=40, max_paths=200)(mk())
 
+    def mk_add_variant(variant):
+        def f(ctx):
+            a = ctx.int("a", -10 ** 6, 10 ** 6)
+            b = ctx.int("b", -10 ** 6, 10 ** 6)
+            i = ctx.choice("i", [0, 1])
+            conn, ex, _ = _mk(ctx)
+            arr = ctx.call(P.future_add_variants, conn, a, b, i, variant)
+            want = [a, b, i, 1]
+            if variant in ("same handle", "second handle of the same entry"):
+                want[0] = ctx.add(a, a)
+            elif variant == "RegFuture operand":
+                want[0] = ctx.add(a, b)
+            elif variant == "Future-indexed target":
+                want[i] = ctx.add(want[i], 7)
+            else:
+                want[i] = ctx.add(want[i], want[1])
+            ctx.check("the array holds the direct-execution result (target updated, everything else unchanged)",
+                      ctx.and_(*[ctx.eq(ctx.index(arr, k), want[k]) for k in range(4)]))
+        return f
+    for variant in ("same handle", "second handle of the same entry", "RegFuture operand", "Future-indexed target", "Future-indexed target and operand"):
+        R.add(f"Future.add[{variant}]", kind="lia", samples=40, max_paths=200)(mk_add_variant(variant))
+
     for mod in (None, "m"):
         def mk(mod=mod):
             def f(ctx):
